@@ -116,4 +116,10 @@ CLAIMS = {
                 "radius non-negative and non-decreasing in p (c14_nonneg_mono, c14_sigma_nonneg). Tie: band radii for eight valid and six invalid probabilities per fit against the driver's exact Student-t quantile.",
         "note": "Trusted: as C01 plus TSpec of distrs::StudentsT::ppf (Hill's approximation; assumed monotone, monitored on a probability grid).",
     },
+    "C08": {
+        "text": "Kernel-checked (the part that is logic): a weighted basis matrix with a non-finite entry never reaches the SVD and leaves a rejected state (c08_nonfinite_absent); set_params and build do not depend on what the SVD routine does on non-finite matrices, so a routine that loops there is never entered (c08_svd_guard, c08_build_guard); "
+                "the optimizer model is total, never exhausts its fuel and stops after at most max(patience*(P+1),2) evaluations for EVERY behaviour of problem and numerical sub-routines (c08_lm_total, proved by an invariant over LM.run); a problem without residuals makes fit fail with User(residuals) without further model calls (c08_nonfinite_fails); "
+                "the usize subtraction of the statistics cannot panic in either profile (C12 Shape.c12_no_panic); builder-made models cannot hit their two panic sites (C16 c16_args_by_name). Tie: robustness stream in two build profiles under a watchdog.",
+        "note": "Trusted: as C01/C04. NOT proved (runtime, sampled only): termination of nalgebra's SVD iteration on finite matrices, absence of panics inside nalgebra / levenberg-marquardt / distrs on extreme finite values. Defect repaired by fix: commit 1b6dc44 (SVD on non-finite input never returned).",
+    },
 }
